@@ -31,3 +31,15 @@ func VerifViewNames(f *Field) []string {
 	sort.Strings(out)
 	return out
 }
+
+// VerifFlushCaches runs the holder's periodic cache flush once.
+func VerifFlushCaches(h *Holder) { h.flushCaches() }
+
+// VerifSnapshotAll forces a foreground snapshot of every fragment of a field.
+func VerifSnapshotAll(f *Field) {
+	for _, v := range f.views() {
+		for _, frag := range v.allFragments() {
+			_ = frag.Snapshot()
+		}
+	}
+}
